@@ -336,6 +336,14 @@ def dry_invalid(c):
             or c.min_constant_occurrences <= 0 or c.storage_mode not in ("memory", "tempfile"))
 
 
+def min_occ(c, ll):
+    """Occurrence threshold for a (lower-cased) language name: its override when set, else the global value."""
+    return (c.python_min_occurrences if ll == "python" and c.python_min_occurrences is not None
+            else (c.typescript_min_occurrences if ll == "typescript" and c.typescript_min_occurrences is not None
+                  else (c.javascript_min_occurrences if ll == "javascript" and c.javascript_min_occurrences is not None
+                        else c.min_occurrences)))
+
+
 @contract(DC + "DRYConfig._validate_positive_fields", props=["C05"], types=dict(self=DRYConfigT), raises=["ValueError"])
 class DRYValidatePositive:
     def raises_when(self):
@@ -353,6 +361,9 @@ class DRYPostInit:
           returns=Int)
 class DRYMinOccurrencesForLanguage:
     """Language override over the global value; `language` is compared lower-cased (uninterpreted str.lower)."""
+
+    def value(self, language):
+        return min_occ(self, language.lower())
 
     def ensures_python(self, language, result):
         return implies(language.lower() == "python",
@@ -592,7 +603,7 @@ class StringlyFromDict:
 # =================================================================== linter_utils: metadata access and the generic loader
 from pyvc.api import ClassOf, uf  # noqa: E402
 
-LintCtxT = Rec("LintContext", cls="src/core/base.py::BaseLintContext", file_path=Opt(PathT), file_content=Opt(Str),
+LintCtxT = Rec("LintContext", file_path=Opt(PathT), file_content=Opt(Str),
                language=Str, metadata=Any)
 GenericCfgT = Rec("LinterConfig", enabled=Bool, key=Int)  # `key`: ghost identity of the configuration object
 ConfigClassT = ClassOf(LU + "ConfigProtocol")
@@ -646,3 +657,35 @@ class LoadLinterConfig:
         return implies(isinstance(section_of(context, config_key), dict),
                        result == cfg_from(section_of(context, config_key), context.language)
                        or result == cfg_from(section_of(context, config_key), None))  # fallback: class without `language`
+
+
+# =================================================================== monotonicity of thresholds (property text)
+def opt_le(a, b):
+    """Override a is at most override b (both unset, or both set and a <= b)."""
+    return (a is None and b is None) or (a is not None and b is not None and a <= b)
+
+
+@lemma(props=["C05", "C03"], types=dict(strict=DRYConfigT, lax=DRYConfigT, language=Str), name="dry-min-occurrences-monotone")
+def dry_min_occurrences_monotone(strict, lax, language):
+    """'Making a threshold more permissive never adds a violation': raising min_occurrences (globally and per language)
+    never lowers the occurrence threshold used for any language, so a group reported under `lax` (len >= threshold) is
+    reported under `strict`."""
+    if not (strict.min_occurrences <= lax.min_occurrences
+            and opt_le(strict.python_min_occurrences, lax.python_min_occurrences)
+            and opt_le(strict.typescript_min_occurrences, lax.typescript_min_occurrences)
+            and opt_le(strict.javascript_min_occurrences, lax.javascript_min_occurrences)):
+        return True
+    return call(DC + "DRYConfig.get_min_occurrences_for_language", strict, language) \
+        <= call(DC + "DRYConfig.get_min_occurrences_for_language", lax, language)
+
+
+from contracts.c16_srp import EVAL, Metrics  # noqa: E402
+
+
+@lemma(props=["C05", "C16"], types=dict(metrics=Metrics, strict=SRPConfigT, lax=SRPConfigT), name="srp-thresholds-monotone")
+def srp_thresholds_monotone(metrics, strict, lax):
+    """A class reported under the more permissive limits is reported under the stricter ones (same keyword settings)."""
+    if not (strict.max_methods <= lax.max_methods and strict.max_loc <= lax.max_loc
+            and strict.check_keywords == lax.check_keywords):
+        return True
+    return implies(len(call(EVAL, metrics, lax)) > 0, len(call(EVAL, metrics, strict)) > 0)
